@@ -119,6 +119,8 @@ def parse_term(s):
 def dump_script(tie_text):
     """the tie lemma with its proof turned into a dump of the goals it leaves"""
     t = tie_text.replace(' all: bool_close.', ' all: try bool_close.')
+    # expose the reads of the small callees on both sides, so that conditions on header fields are conditions on octets
+    t = t.replace(' run_eq2.', ' cbv [header_read flags_read]. run_eq2.').replace(' loop_eq IH.', ' cbv [header_read]. loop_eq IH.')
     i = t.rfind('Qed.')
     return 'Set Printing Width 100000.\nSet Printing Depth 100000.\n' + t[:i] + ' all: [> dump_residual .. ].\nAbort.\n'
 
@@ -247,11 +249,18 @@ def inputs_of_residual(res, params):
     """One residual goal -> list of (params dict, octets of the reader input `l`).
     Reads `lr_read k li = Val (x, lj)` give the layout of `l`; `len` facts its size; everything else is solved as
     integer arithmetic when possible and dropped otherwise."""
-    reads, cons, vars_ = {}, [], set()
+    reads, cons, vars_, tails = {}, [], set(), {}
     for h in res['hyps']:
-        m = re.match(r'^\(?lr_read (\d+) (\w+\'*) = Val \((\w+\'*), (\w+\'*)\)\)?$', h)
+        m = re.match(r'^\(?lr_read (\d+) (\w+\'*) = Val \((\w+\'*), (.*?)\)\)?$', h)
         if m:
-            reads[m.group(2)] = (int(m.group(1)), m.group(3), m.group(4))
+            tail = m.group(4).strip()
+            if re.fullmatch(r"\w+'*", tail):
+                reads[m.group(2)] = (int(m.group(1)), m.group(3), tail)
+            else:
+                # the rest was destructed: [] (nothing left) or x :: y (something left)
+                tn = '_tail_of_' + m.group(2)
+                reads[m.group(2)] = (int(m.group(1)), m.group(3), tn)
+                tails[tn] = 0 if tail == '[]' else 1
             continue
         m = re.match(r'^\(?(.*) = (true|false)\)?$', h)
         if not m:
@@ -275,6 +284,8 @@ def inputs_of_residual(res, params):
         vars_.add('len_' + name)
         if name != 'l':
             cons.append('(= v_len_%s (ite (>= v_len_l %d) (- v_len_l %d) 0))' % (name.replace("'", '_q'), o, o))
+        if name in tails:
+            cons.append('(= v_len_l %d)' % o if tails[name] == 0 else '(> v_len_l %d)' % o)
     for (o, k, x) in chain:
         vars_.add(x)
         cons.append('(< v_%s %d)' % (x.replace("'", '_q'), 256 ** k))
@@ -282,8 +293,8 @@ def inputs_of_residual(res, params):
     cons.append('(<= v_len_l 70000)')
     out = []
     # a few solutions: smallest input, and a roomier one
-    for extra in ('(minimize v_len_l)', '(assert (>= v_len_l %d))' % (off + 40), ''):
-        m = solve(cons, vars_, extra if 'minimize' not in extra else '')
+    for extra in ('(minimize v_len_l)', '(assert (>= v_len_l %d))(minimize v_len_l)' % (off + 9), ''):
+        m = solve(cons, vars_, extra)
         if m is None:
             continue
         n = m.get('len_l', off)
